@@ -40,7 +40,7 @@ def plan(tier):
                 'multi-object multi-client sequences; a cell is (variant, state, symbol, outcome, new state)'
                 % len(SYMBOLS),
         'min_monitor': {'steps_checked': 2000, 'uses_refused': 200, 'uses_succeeded': 20,
-                        'transitions_seen': 30},
+                        'transitions_seen': 30, 'batch_items_checked': 300},
         'assumptions': ['engine behaviour is a function of (store, request, identity) - checked by C11 - '
                         'so closing the state graph covers all sequences of any depth over the alphabet',
                         'Revoke with CA_COMPROMISE may lead Active->Deactivated (inside the allowed relation)'],
@@ -51,6 +51,7 @@ def cases(tier, seed):
     cs = [{'variant': list(v)} for v in VARIANTS]
     n = 24 if tier == 'quick' else 400
     cs += [{'random': i} for i in range(n)]
+    cs += [{'batch': i} for i in range(24 if tier == 'quick' else 400)]
     return cs
 
 
@@ -292,7 +293,141 @@ def run_random(ctx, case):
             srv.close()
 
 
+def possible_after(states, base, code, ok):
+    """Set of states an object may be in after one batch item, given the set it may have been in before: only a
+    successful Activate or Revoke moves it, and only along the relation."""
+    if not ok or base not in ('activate', 'revoke'):
+        return set(states)
+    out = set()
+    for b in states:
+        for a in (S.PRE_ACTIVE, S.ACTIVE, S.DEACTIVATED, S.COMPROMISED):
+            if model.transition_allowed(b, a, base, code):
+                out.add(a)
+    return out
+
+
+def run_batch(ctx, case):
+    """Lifecycle rules inside batches: several items on the same objects in one request (Stop / Continue), Revoke in
+    all its forms (reason codes, messages, compromise occurrence dates in the past, at zero and in the future).  Items
+    are judged one after the other against the set of states the object may be in: a failed item moves nothing, a
+    successful Destroy or use of an object that can only be Active / cannot be Active is a violation, and the state
+    read back after the batch must be one the successful items account for."""
+    rng = ctx.rng()
+    clock = rig.install_clock(rig.VClock(step=1))
+    with rig.scratch_dir() as d:
+        srv = rig.Server(d + '/db.sqlite')
+        try:
+            objs = []
+            for i in range(6):
+                kind, label = rng.choice([v for v in VARIANTS if v[0] != 'opaque'])
+                o = store.register(srv, kind, 'alice', rng, masks=masks_of(label), names=['b%d' % i],
+                                   state=rng.choice(('pre', 'active', 'active', 'active', 'deactivated', 'compromised')))
+                if o:
+                    objs.append(o)
+            helper = store.register(srv, 'sym', 'alice', rng, names=['helper'], state='pre')
+            dh = store.register(srv, 'sym', 'alice', rng, names=['derive-helper'], masks=[M.DERIVE_KEY], state='pre')
+            if helper is None or dh is None or not objs:
+                ctx.unsure('setup of a lifecycle batch history failed')
+                return
+            DERIVE_HELPER[helper.uid] = dh.uid
+
+            def states_now():
+                dmp = srv.dump()
+                return {str(r[0]): S(r[2]) if r[2] is not None else None for r in dmp.get('crypto_objects', [])}, \
+                    set(str(r[0]) for r in dmp.get('managed_objects', []))
+            for step in range(14):
+                prev, alive = states_now()
+                live = [o for o in objs if o.uid in alive]
+                if not live:
+                    break
+                targets = rng.sample(live, min(len(live), rng.choice((1, 1, 2))))
+                version = rng.choice(((1, 0), (1, 2), (1, 4), (2, 0)))
+                items = []
+                for _ in range(rng.randrange(2, 7)):
+                    o = rng.choice(targets)
+                    sym = rng.choice(SYMBOLS[:9] * 2 + SYMBOLS[9:])
+                    if sym.startswith('revoke:'):
+                        now = clock.now
+                        occ = rng.choice((None, None, 0, 1, now - 1000, now, now + 5, now + 10 ** 6, 2 ** 40))
+                        op = op_revoke(o.uid, RC[sym.split(':')[1]], message=rng.choice((None, '', 'reason text')), occurrence=occ)
+                    else:
+                        try:
+                            op = symbol_op(sym, o.uid, helper.uid, version)
+                        except Exception:
+                            continue
+                    items.append((o, sym, op))
+                option = rng.choice((E.BatchErrorContinuationOption.CONTINUE, E.BatchErrorContinuationOption.CONTINUE,
+                                     E.BatchErrorContinuationOption.STOP, None))
+                try:
+                    res = srv.send([it[2] for it in items], OWNER, version, error_option=option)
+                except Exception:
+                    ctx.count('batch_not_encodable')
+                    continue
+                if res.error is not None:
+                    continue
+                ctx.ev()
+                ctx.count('batches_checked')
+                cur, alive2 = states_now()
+                poss = {o.uid: ({prev.get(o.uid)} if o.uid in alive else set()) for o in targets}
+                gone = {o.uid: False for o in targets}
+                detail = {'version': version, 'option': str(option), 'items': [(o.uid, sym) for o, sym, _ in items],
+                          'answers': res.brief(), 'before': {u: str(v) for u, v in prev.items()}}
+                for i, (o, sym, _) in enumerate(items):
+                    it = res.item(i)
+                    if it is None:
+                        break           # not processed (Stop after a failure)
+                    ok = it['status'] == 0
+                    base = sym.split(':')[0]
+                    code = RC[sym.split(':')[1]] if base == 'revoke' else None
+                    ctx.count('steps_checked')
+                    ctx.count('batch_items_checked')
+                    st = poss[o.uid]
+                    if gone[o.uid]:
+                        continue        # behaviour after Destroy is C07's
+                    names = '/'.join(sorted(x.name if x is not None else 'none' for x in st))
+                    ctx.cell('batch', o.kind, names, sym, 'ok' if ok else 'failed')
+                    if base == 'destroy' and ok:
+                        if st == {S.ACTIVE}:
+                            ctx.violation('destroy|ACTIVE|batch', 'Destroy succeeded inside a batch on an object that no successful item had '
+                                          'moved out of Active', dict(detail, item=i))
+                        gone[o.uid] = True
+                        continue
+                    use = {'encrypt': 'encrypt', 'decrypt': 'decrypt', 'sign': 'sign', 'signature_verify': 'signature_verify',
+                           'mac': 'mac', 'wrap': 'wrap'}.get(base)
+                    if use and ok:
+                        ctx.count('uses_succeeded')
+                        kinds, bit = model.USE_REQUIREMENTS[use]
+                        if S.ACTIVE not in st or (kinds is not None and o.kind not in kinds) or bit not in o.masks:
+                            ctx.violation('use:%s|%s|%s|batch' % (use, names, o.kind), '%s succeeded inside a batch on a %s object that can '
+                                          'only be in %s (mask %s)' % (use, o.kind, names, [m.name for m in o.masks]), dict(detail, item=i))
+                    elif use:
+                        ctx.count('uses_refused')
+                    poss[o.uid] = possible_after(st, base, code, ok)
+                for o in targets:
+                    if o.uid not in alive:
+                        continue
+                    if gone[o.uid] != (o.uid not in alive2):
+                        if o.uid not in alive2:
+                            ctx.violation('gone-without-destroy|batch', 'object %s disappeared although no Destroy item succeeded' % o.uid, detail)
+                        continue
+                    if o.uid in alive2 and cur.get(o.uid) not in poss[o.uid]:
+                        b, a = prev.get(o.uid), cur.get(o.uid)
+                        ctx.count('transitions_seen')
+                        ctx.violation('batch|%s->%s' % (b.name if b else b, a.name if a else a),
+                                      'after the batch object %s is in state %s; the successful items account only for %s'
+                                      % (o.uid, a, sorted(x.name for x in poss[o.uid] if x is not None)), detail)
+                    elif o.uid in alive2 and cur.get(o.uid) != prev.get(o.uid):
+                        ctx.count('transitions_seen')
+                for x in objs:
+                    if x not in targets and (cur.get(x.uid) != prev.get(x.uid) or (x.uid in alive) != (x.uid in alive2)):
+                        ctx.violation('bystander|batch', 'state of object %s changed by a batch that does not address it' % x.uid, detail)
+        finally:
+            srv.close()
+
+
 def run_case(ctx, case):
+    if 'batch' in case:
+        return run_batch(ctx, case)
     if 'variant' in case:
         run_variant(ctx, case['variant'][0], case['variant'][1])
     else:
